@@ -105,3 +105,6 @@ add('C32','model_checking','explicit-state search over real ABCI blocks with a d
 add('C31','model_checking','exhaustive enumeration of (blocks per session x submission window) configurations x every claim height x every single-block hash perturbation, executed on the real application (differential executions)',
  'For each configuration the set of heights that accept a claim and the last block whose hash influences the required leaf index are both measured on the real app (the index mirror is bound to the implementation by an accepted proof at the index and a rejected one next to it); violation iff a claim is accepted at or after the height at which that hash is public.',
  'Configurations: bps 2-6 x window 2-4; relay counts 5..16 for the index vectors.')
+add('C34','model_checking','stateless model checking of the real HandleRelay/SendClaimTx under a hand-written cooperative scheduler (scheduling points = evidence-cache and servicer mutex operations, hooked by a build overlay), depth-first over all schedules up to a preemption bound',
+ 'Six 2-3 goroutine scenarios (identical relays, distinct relays, three relays at a limit of two, relays racing the real claim-time sealing) on a real chain state; every schedule with <= 2 preemptions (thorough: 50, i.e. all) is executed on freshly cleared caches and the stored evidence is compared with the responses (no duplicate, count, limit, every answered relay recorded, identical relay answered once, claimed count = stored count); the default schedule is replayed twice and must be identical.',
+ 'Accesses between two lock operations of one goroutine are atomic for the scheduler; a free-running race-detector pass is not part of the check.')
